@@ -183,6 +183,8 @@ def build(run):
 
 
 def run(run, replay=None):
+    from units.C16 import cex as _cex
+    run.fallbacks.append(("opcode / magic tables", lambda: _cex.fallback(run)))
     unit, hs = build(run)
     res = unit.run([h[0] for h in hs], jobs=14, timeout_s=600)
     run.note_functions(unit.snippets)
